@@ -233,10 +233,13 @@ def flat_forms(ctx):
     for i in range(24):
         rng = ctx.rng("flat", i)
         same = i % 2 == 0
-        f = gen.simple_form([("begin group", "g1", {"label": "G1"}, [("text", "q" if same else "qa", {"label": "A"})]),
+        extq = [("select_one_external ext", f"city{i}", {"label": "C", "choice_filter": "grp = 'x'"})] if i % 3 == 0 else []
+        f = gen.simple_form([("begin group", "g1", {"label": "G1"}, [("text", "q" if same else "qa", {"label": "A"})] + extq),
                              ("begin group", "g2", {"label": "G2"}, [("integer", "q" if same else "qb", {"label": "B"}), ("begin repeat", "r", {"label": "R"}, [("text", "inr", {"label": "I"})])] if i % 4 < 2 else
                               [("integer", "q" if same else "qb", {"label": "B"})])],
                             settings={"flat": rng.choice(["yes", "true", "1"])})
+        if extq:
+            f.external_choices = [{"list_name": "ext", "name": "a", "label": "A", "grp": "x"}]
         o = drive.convert_form(f)
         ctx.case(sig=f"flat|{same}|{i % 4 < 2}")
         ctx.ctr("flat_forms")
